@@ -518,6 +518,25 @@ def grid_nontrivial(spec):
     return spec["frame"]["index"]["kind"] != "range" or spec["frame"]["index"]["name"] is not None
 
 
+def astype_grid_cases(tier):
+    """astype to a categorical given as the string 'category' and as a CategoricalDtype() INSTANCE without categories (per
+    column in a dict, for one or two columns), alone and followed by a projection / a filter, on 1 and 3 partitions whose
+    values differ: the lazy meta must not claim categories the partitions do not carry."""
+    import itertools
+
+    cols = [{"kind": "int", "name": "a"}, {"kind": "str", "name": "c", "nan": 0.0}, {"kind": "str", "name": "d", "nan": 0.2}]
+    cat_s, cat_i = "category", {"catdtype": {}}
+    dts = [[["c", cat_s]], [["c", cat_i]], [["c", cat_i], ["d", cat_i]], [["c", cat_s], ["d", cat_i]], [["d", cat_i], ["a", "float64"]]]
+    tails = [[], [{"op": "project", "cols": ["c", "a"]}], [{"op": "getcol", "col": "c"}],
+             [{"op": "filter", "pred": {"e": "bin", "l": {"e": "col", "name": "a"}, "op": "gt", "r": {"e": "lit", "v": 0}}}]]
+    parts = [{"how": "npartitions", "n": 1, "sort": True}, {"how": "npartitions", "n": 3, "sort": True}]
+    for dt, tail, part, seed in itertools.product(dts, tails, parts, (5, 6)):
+        if tail and tail[0]["op"] in ("project", "getcol") and not any(n == "c" for n, _ in dt):
+            continue
+        frame = {"columns": cols, "index": {"kind": "range", "name": None}, "nrows": 9, "seed": seed, "partition": part}
+        yield {"clear_div": False, "final": None, "frame": frame, "ops": [{"op": "astype", "dtypes": {"dict": dt}}] + tail}
+
+
 SUBCHECKS = [
     Sub(
         "random",
@@ -527,6 +546,16 @@ SUBCHECKS = [
         nontrivial=nontrivial,
         classes=classes,
         doc="random programs (row-wise steps, optional reduction or groupby) on frames with empty partitions: lazy _meta vs computed result and every computed partition",
+    ),
+    Sub(
+        "astype-grid",
+        check,
+        kind="enum",
+        cases=astype_grid_cases,
+        nontrivial=lambda spec: spec["frame"]["partition"]["n"] > 1,
+        classes=classes,
+        exhaustive=True,
+        doc="astype to 'category' vs CategoricalDtype() instance (dict per column) x following projection/filter x 1|3 partitions: lazy meta vs computed result and partitions",
     ),
     Sub(
         "grid",
